@@ -220,7 +220,7 @@ class Ident:
         return s
 
 
-def gen_cxx(rng, nclasses, nfuncs):
+def gen_cxx(rng, nclasses, nfuncs, nsubst=1):
     """returns (source text, set of expected simplified qualified names)"""
     ids = Ident(rng)
     out, want = [], set()
@@ -336,10 +336,36 @@ def gen_cxx(rng, nclasses, nfuncs):
             out.append("template struct %s<int>;" % c)
             out.append("template struct %s<%s<char*> >;" % (c, c))
 
+    def subst_stress(path):
+        """functions whose parameter lists create many substitution candidates and then reuse them:
+        <seq-id> is base 36 (S_, S0_ .. S9_, SA_ .. SZ_, S10_ ..)"""
+        k = rng.choice([10, 19, 24, 40])
+        qs = [ids.new(2, 6) for _ in range(k)]
+        out.append(" ".join("struct %s {};" % q for q in qs))
+        for _ in range(2):
+            f = ids.new()
+            first = ["%s*" % q for q in qs[:rng.randrange(k // 2, k + 1)]]
+            reuse = [rng.choice(["%s*", "%s&", "const %s*", "%s**", "%s"]) % rng.choice(qs) for _ in range(rng.randrange(3, 9))]
+            out.append("void %s(%s) {}" % (f, ", ".join(first + reuse)))
+            want.add("::".join(path + [f]))
+        c = ids.new()
+        m = ids.new()
+        args = ", ".join(["%s&" % q for q in qs] + ["%s&" % rng.choice(qs[k // 2:]) for _ in range(4)])
+        out.append("struct %s { void %s(%s) const; %s(%s); };" % (c, m, args, c, args))
+        out.append("void %s::%s(%s) const {}" % (c, m, args))
+        out.append("%s::%s(%s) {}" % (c, c, args))
+        want.add("::".join(path + [c, m]))
+        want.add("::".join(path + [c, c]))
+
     top = ids.new()
     out.append("namespace %s {" % top)
     while nclasses > 0 or nfuncs > 0:
         emit_scope(1, [top])
+    for _ in range(nsubst):
+        sub = ids.new()
+        out.append("namespace %s {" % sub)
+        subst_stress([top, sub])
+        out.append("}")
     out.append("}")
     return "\n".join(out) + "\n", want
 
@@ -358,6 +384,8 @@ def strip_targs(s):
             else:
                 out.append("operator")
                 i = j
+            if s.startswith(" <", i):          # "operator< <char, ...>"
+                i += 1
             continue
         if s[i] == "<":
             d = 0
@@ -378,10 +406,10 @@ def strip_targs(s):
     return "".join(out)
 
 
-def cxx_corpus(ctx, nclasses, nfuncs):
+def cxx_corpus(ctx, nclasses, nfuncs, nsubst=1):
     """compile a generated translation unit with g++ and clang++; returns list of (mangled, want|None)"""
     rng = ctx.rng
-    src, want = gen_cxx(rng, nclasses, nfuncs)
+    src, want = gen_cxx(rng, nclasses, nfuncs, nsubst)
     d = os.path.join(ctx.scratch, "cxx")
     os.makedirs(d, exist_ok=True)
     cc_file = os.path.join(d, "corpus.cc")
@@ -411,6 +439,84 @@ def cxx_corpus(ctx, nclasses, nfuncs):
             unmatched += 1
             res.append((m.encode(), None, sorted(names[m])))
     ctx.extra["corpus_cxx"] = {"symbols": len(ms), "with_oracle": len(ms) - unmatched, "declared_names": len(want)}
+    return res
+
+
+STD_SNIPPETS = [
+    ("void {m}(const {R}& r)", "{v}.push_back(r); {mp}[r.name] = std::make_shared<{R}>(r);"),
+    ("std::optional<{R}> {m}(const std::string& n) const",
+     "auto it = {mp}.find(n); if (it == {mp}.end()) return std::nullopt; return *it->second;"),
+    ("void {m}()", "std::sort({v}.begin(), {v}.end()); std::reverse({v}.begin(), {v}.end());"),
+    ("int {m}(int x) const", "int n = x; for (const auto& r : {v}) n += r.k; return n;"),
+    ("std::vector<std::string> {m}() const", "std::vector<std::string> o; for (auto& kv : {mp}) o.push_back(kv.first); return o;"),
+    ("void {m}(std::set<int>& s, std::list<{R}>& l)", "for (auto& r : l) s.insert(r.k); l.clear();"),
+    ("std::tuple<int, std::string, {R}*> {m}(std::deque<{R}>& d)", "return std::make_tuple(d.front().k, d.front().name, &d.front());"),
+    ("std::unique_ptr<{R}> {m}(int k)", "auto p = std::make_unique<{R}>(); p->k = k; return p;"),
+    ("bool {m}(const std::pair<int, {R}>& a, const std::pair<int, {R}>& b) const", "return a.first < b.first || a.second < b.second;"),
+    ("void {m}(std::function<void({R}&)> f)", "for (auto& r : {v}) f(r);"),
+    ("std::map<int, std::vector<{R}>> {m}() const", "std::map<int, std::vector<{R}>> o; for (auto& r : {v}) o[r.k].push_back(r); return o;"),
+    ("std::string {m}(const std::string& a, const char* b) const", "return a + b + std::to_string({v}.size());"),
+]
+
+
+def gen_std(rng):
+    """a translation unit that instantiates libstdc++ containers with generated user types"""
+    ids = Ident(rng)
+    ns, R, S = ids.new(2, 8), ids.new(2, 8), ids.new(2, 8)
+    v, mp = ids.new(1, 4), ids.new(1, 4)
+    lines = ["#include <vector>", "#include <string>", "#include <map>", "#include <set>", "#include <list>", "#include <deque>",
+             "#include <tuple>", "#include <memory>", "#include <algorithm>", "#include <functional>", "#include <optional>",
+             "namespace %s {" % ns,
+             "struct %s { int k; std::string name; bool operator<(const %s& o) const { return k < o.k; } };" % (R, R)]
+    decls, defs = [], []
+    for sig, body in rng.sample(STD_SNIPPETS, rng.randrange(5, len(STD_SNIPPETS) + 1)):
+        m = ids.new()
+        fmt = dict(m=m, R=R, v=v, mp=mp)
+        d = sig.format(**fmt)
+        decls.append(d + ";")
+        ret, rest = d.split(" " + m + "(", 1)
+        defs.append("%s %s::%s(%s { %s }" % (ret, S, m, rest, body.format(**fmt)))
+    lines.append("struct %s { std::vector<%s> %s; std::map<std::string, std::shared_ptr<%s>> %s; %s };"
+                 % (S, R, v, R, mp, " ".join(decls)))
+    lines += defs
+    lines.append("}")
+    return "\n".join(lines) + "\n"
+
+
+PLAIN_NAME = re.compile(r"[A-Za-z_]\w*(::(~?[A-Za-z_]\w*|operator(%s)))*" % "|".join(re.escape(t) for t in OP_TOKENS))
+
+
+def std_corpus(ctx):
+    """symbols of a libstdc++-heavy translation unit; oracle = c++filt -p minus template arguments, only for
+    ordinary functions (no special names, local names, lambdas, unnamed types, inheriting constructors, abi tags)"""
+    d = os.path.join(ctx.scratch, "std")
+    os.makedirs(d, exist_ok=True)
+    cc_file = os.path.join(d, "std.cc")
+    open(cc_file, "w").write(gen_std(ctx.rng))
+    names = {}
+    for comp in (("g++", "clang++") if ctx.thorough() else ("g++",)):
+        obj = os.path.join(d, comp + ".o")
+        rc, o, e = sh([comp, "-std=c++17", "-w", "-O0", "-c", cc_file, "-o", obj], timeout=180)
+        if rc != 0:
+            ctx.broken("std corpus generator produced C++ that %s rejects" % comp, e[-1500:])
+            continue
+        rc, o, e = sh(["nm", obj], timeout=60)
+        for ln in o.splitlines():
+            f = ln.split()
+            if f and f[-1].startswith("_Z"):
+                names.setdefault(f[-1], set()).add(comp)
+    ms = sorted(names)
+    rc, o, e = sh(["c++filt", "-p"], input="\n".join(ms) + "\n", timeout=60)
+    res, n_or = [], 0
+    for m, f in zip(ms, o.splitlines()):
+        want = None
+        if not re.match(r"_Z(T|G|Z|L?N?K?Z)", m) and not re.search(r"CI\d|U[lt]|B\d", m) and "{" not in f and "[abi:" not in f:
+            red = strip_targs(f)
+            if PLAIN_NAME.fullmatch(red):
+                want = red.encode()
+                n_or += 1
+        res.append((m.encode(), want, sorted(names[m])))
+    ctx.extra["corpus_std"] = {"symbols": len(ms), "with_oracle": n_or}
     return res
 
 
@@ -764,6 +870,90 @@ class Gram:
         return s.encode()
 
 
+# ---------------------------------------------------------------- stream (a'): the formal mangler of the theorems
+# mirrors ymangle / simple_name of coq/theories/C13/Roundtrip.v (theorem C13_roundtrip_typed_partial):
+# the generator knows the qualified name, so a wrong or unchanged result is a failing input
+B36 = "0123456789ABCDEFGHIJKLMNOPQRSTUVWXYZ"
+OPNAMES = {"nw": " new", "na": " new[]", "dl": " delete", "da": " delete[]", "ps": "+", "ng": "-", "ad": "&", "de": "*", "co": "~",
+           "pl": "+", "mi": "-", "ml": "*", "dv": "/", "rm": "%", "an": "&", "or": "|", "eo": "^", "aS": "=", "pL": "+=", "mI": "-=",
+           "mL": "*=", "dV": "/=", "rM": "%=", "aN": "&=", "oR": "|=", "eO": "^=", "ls": "<<", "rs": ">>", "lS": "<<=", "rS": ">>=",
+           "eq": "==", "ne": "!=", "lt": "<", "gt": ">", "le": "<=", "ge": ">=", "nt": "!", "aa": "&&", "oo": "||", "pp": "++",
+           "mm": "--", "cm": ",", "pm": "->*", "pt": "->", "cl": "()", "ix": "[]", "qu": "?"}
+
+
+def formal_name(rng):
+    """returns (mangled bytes, expected simplified name bytes)"""
+    def ident():
+        n = rng.choice([1, 2, 3, 5, 8, 9, 10, 11, 16, 17, 18, 30])
+        while True:
+            s = rng.choice("abcxyzABCXYZ_") + "".join(rng.choice("abcdefghijklmnopqrstuvwxyzABCXYZ_0123456789") for _ in range(n - 1))
+            if not re.fullmatch(r"h[0-9a-fA-F]{16}", s):
+                return s
+
+    def src(i):
+        return "%d%s" % (len(i), i)
+
+    def seq():
+        k = rng.random()
+        if k < 0.15:
+            return ""
+        if k < 0.55:
+            return rng.choice(B36)
+        if k < 0.8:
+            return rng.choice("GHIJKLMNOPQRSTUVWXYZ")           # the 18th .. 37th candidate
+        return rng.choice(B36[1:]) + "".join(rng.choice(B36) for _ in range(rng.randrange(1, 3)))
+
+    def targs(d):
+        """optional <targs> of the general grammar (theorem C13_roundtrip_general_partial)"""
+        if d > 3 or rng.random() < 0.65:
+            return ""
+        out = "I"
+        for _ in range(rng.randrange(0, 4)):
+            if rng.random() < 0.25:
+                out += "L" + rng.choice(BUILTIN) + str(rng.choice([1, 2, 3, 7, 10, 16, 255, 4096])) + "E"
+            else:
+                out += ty(d + 1)
+        return out + "E"
+
+    def nested_items(d):
+        out = ""
+        if rng.random() < 0.5:
+            out += "S" + seq() + "_" + targs(d)
+        for _ in range(rng.randrange(0 if out else 1, 4)):
+            out += (src(ident()) if rng.random() < 0.85 else "S" + seq() + "_") + targs(d)
+        return out
+
+    def ty(d=0):
+        q = "".join(rng.choice("rVKPROCG") for _ in range(rng.choice([0, 0, 0, 1, 1, 2, 3])))
+        k = rng.random()
+        if k < 0.35:
+            return q + rng.choice(BUILTIN)
+        if k < 0.6:
+            return q + "S" + seq() + "_" + targs(d)
+        if k < 0.8:
+            return q + src(ident()) + targs(d)
+        return q + "N" + nested_items(d) + "E"
+    quals = rng.choice(["", "", "", "K", "V", "R", "O", "KR", "KO", "VK", "VKO"])
+    scopes = [ident() for _ in range(rng.randrange(1, 5))]
+    enc = ""
+    for sc in scopes:
+        enc += src(sc) + targs(0)
+    k = rng.random()
+    name = "::".join(scopes)
+    if k < 0.15:
+        enc += "C" + rng.choice("123")
+        name += "::" + scopes[-1]
+    elif k < 0.3:
+        enc += "D" + rng.choice("012")
+        name += "::~" + scopes[-1]
+    elif k < 0.5:
+        op = rng.choice(sorted(OPNAMES))
+        enc += op
+        name += "::operator" + OPNAMES[op]
+    tys = "".join(ty() for _ in range(rng.choice([0, 1, 1, 2, 3, 5, 8])))
+    return ("_ZN" + quals + enc + "E" + tys).encode(), name.encode()
+
+
 def deep_names(depth):
     """nesting depth `depth` in each of the recursive productions"""
     d = depth
@@ -919,7 +1109,9 @@ def tags_of(name, impl):
 def common_meta(ctx):
     ctx.rule = ("a case is one symbol string; streams: (a) every _Z symbol of a generated C++ translation unit compiled by g++ and "
                 "clang++ (expected result = the generator's qualified name, cross-checked with c++filt -p minus template "
-                "arguments), rustc legacy names of a generated crate, the names of utils/demangle.c's unit tests; (b) "
+                "arguments), rustc legacy names of a generated crate, the names of utils/demangle.c's unit tests, and names of the "
+                "formal grammar of theorem C13_roundtrip_general_partial (qualifiers, recursive template arguments, class/nested/substitution parameter "
+                "types with base-36 seq-ids of 0-3 digits; expected = the mangler's qualified name); (b) "
                 "grammar-directed random manglings over all productions the parser knows, nesting depth 1..40; (c) truncations at "
                 "every kind of boundary, byte/number mutations, random bytes 1..255, prefix/suffix variants; (d) every distinct "
                 "string the implementation returned, fed back (idempotence).  distinct = distinct strings; non-trivial = of "
@@ -962,12 +1154,17 @@ def gen_cases(ctx):
         add(w, None, "legacy-witness")
     for n in unit_test_names():
         add(n, None, "unit-test")
-    for m, want, comps in cxx_corpus(ctx, ctx.n(10, 40), ctx.n(8, 30)):
+    for m, want, comps in cxx_corpus(ctx, ctx.n(10, 40), ctx.n(8, 30), ctx.n(1, 4)):
         add(m, want, "corpus:" + "+".join(comps))
+    for m, want, comps in std_corpus(ctx):
+        add(m, want, "corpus-std:" + "+".join(comps))
     for m, want, comps in rust_corpus(ctx, ctx.n(8, 25)):
         add(m, want, "corpus:rustc")
     for m, want in RUST_HANDMADE:
         add(m, want, "rust-handmade")
+    for _ in range(ctx.n(150, 2500)):
+        m, want = formal_name(rng)
+        add(m, want, "formal-mangler")
     base = [c["name"] for c in cases]
     # (b) grammar
     g = Gram(rng, 4)
@@ -1045,8 +1242,25 @@ def run_and_eval(ctx, exe, cases, name):
     res = None
     CH = 1200
     agg = {"mismatch": [], "violations": [], "wrong": [], "cls": []}
+    def ev(lo, hi, tag, depth=0):
+        """evaluate cases[lo:hi]; a coqc run that dies without a Coq error (killed under memory / time pressure)
+        is retried on the two halves"""
+        nb = len(ctx.brokens)
+        r = evaluate(ctx, cases[lo:hi], tag)
+        if r is None and depth < 3 and hi - lo > 1 and len(ctx.brokens) == nb + 1 and "Error" not in ctx.brokens[-1]["detail"]:
+            ctx.log("model evaluation %s died without a Coq error (%r); retrying in two halves"
+                    % (tag, ctx.brokens[-1]["detail"][-200:]))
+            ctx.brokens.pop()
+            mid = (lo + hi) // 2
+            a = ev(lo, mid, tag + "a", depth + 1)
+            b = ev(mid, hi, tag + "b", depth + 1)
+            if a is None or b is None:
+                return None
+            r = {key: a[key] + [(mid - lo) + i for i in b[key]] for key in ("mismatch", "violations", "wrong")}
+            r["cls"] = a["cls"] + b["cls"]
+        return r
     for k in range(0, len(cases), CH):
-        r = evaluate(ctx, cases[k:k + CH], "%s_%d" % (name, k // CH))
+        r = ev(k, min(k + CH, len(cases)), "%s_%d" % (name, k // CH))
         if r is None:
             return None
         for key in ("mismatch", "violations", "wrong"):
